@@ -101,8 +101,15 @@ def main():
                 t = gen_re(R.rng)
                 pats.append({"re": re_py(t), "ast": t})
         users.append({"name": "U%d" % i, "pats": pats, "form": R.rng.choice(["list", "tuple", "single"]) if len(pats) == 1 else R.rng.choice(["list", "tuple"])})
+    # user categories outside the modelled regex fragment (flags, groups and back-references, several patterns): judged by Python's re alone
+    XPATS = [{"re": r"u? int (8|16)", "flags": re.VERBOSE}, {"re": "float(16|32|64)", "flags": re.IGNORECASE}, {"re": "BFLOAT16", "flags": re.IGNORECASE},
+             {"re": r"(u?)int(8|16)"}, {"re": r"q(u?)int(\d+)_\2"}, {"re": r"(float|complex)(\d+)"}, {"re": r"(?P<k>int|uint)(?P<w>\d+)"}, {"re": r"(f)loat\d\d$"}, {"str": "bool"}, {"re": "^int"}]
+    xusers = []
+    for i in range(120 if R.thorough else 14):
+        xusers.append({"name": "X%d" % i, "pats": R.rng.sample(XPATS, R.rng.choice([1, 2, 2, 3])), "form": R.rng.choice(["list", "tuple"])})
+    xusers.append({"name": "Xempty", "pats": [], "form": "list"})
     req = {"backends": ["numpy", "jax", "tf", "duck"], "names": names,
-           "user": [{"name": u["name"], "form": u["form"], "pats": [{k: v for k, v in p.items() if k != "ast"} for p in u["pats"]]} for u in users]}
+           "user": [{"name": u["name"], "form": u["form"], "pats": [{k: v for k, v in p.items() if k != "ast"} for p in u["pats"]]} for u in users] + xusers}
     from concurrent.futures import ThreadPoolExecutor
     with ThreadPoolExecutor(2) as ex:
         # two fresh interpreters enumerate the same triples in opposite orders: the verdict is a function of (dtype, category, backend), not of history
@@ -172,6 +179,17 @@ def main():
             if mg != want:
                 R.violation("correspondence", "regex model disagrees with Python's re: pattern set %s on %r: model %s, re %s" % ([p.get("re", p.get("str")) for p in u["pats"]], nm, mg, want),
                             {"user": u, "name": nm}, key={"kind": "regex-model"}, no_input=True)
+    for u in xusers:
+        comp = [re.compile(p["re"], p.get("flags", 0)) if "re" in p else p["str"] for p in u["pats"]]
+        for r in duck:
+            nm = r["label"]
+            want = any((nm == p) if isinstance(p, str) else bool(p.match(nm)) for p in comp)
+            got = r["user_verdicts"].get(u["name"])
+            ntrip += 1
+            if got != want:
+                R.violation("property", "user category %s (dtypes=%s, given as %s) %s the dtype name %r on a %s array; by the documented rule (equal to a string, or matched by a pattern AS COMPILED by the user) it should %s" % (
+                    u["name"], [(p.get("re", p.get("str")), int(p.get("flags", 0))) for p in u["pats"]], u["form"], "accepts" if got is True else "rejects" if got is False else got, nm, r["backend"], "accept" if want else "reject"),
+                    {"user": {"name": u["name"], "form": u["form"], "pats": [dict(p, flags=int(p.get("flags", 0))) for p in u["pats"]]}, "name": nm, "got": got, "expected": want}, key={"kind": "user-category-flags", "category": u["name"], "dtype": nm})
     if not proved:
         R.violation("proof", "proof obligations of props/C03.v no longer check (generated table vs documented hierarchy): " + str(R.broken_proof)[-900:],
                     {"theorem_file": "coq/props/C03.v", "log": R.broken_proof}, no_input=not any(v["kind"] == "property" for v in R.violations))
